@@ -3036,7 +3036,8 @@ class Set(Collection):
         if setdata is None or not setdata.is_fully_loaded: setdata = attr.load(obj)
         reverse = attr.reverse
         rentity = attr.py_type
-        if reverse.is_collection and rentity._subclasses_:
+        cache = obj._session_cache_
+        if cache is not None and cache.is_alive and reverse.is_collection and rentity._subclasses_:
             rentity._load_many_(setdata)  # items of a many-to-many collection are known by primary key only: fetch them to learn their real class
         if not reverse.is_collection and reverse.pk_offset is None:
             added = setdata.added or ()
